@@ -94,6 +94,8 @@ def judge(case, obs):
 def run_case(case):
     if "twin" in case:
         return run_twin(case)
+    if case.get("atx_threads"):
+        return run_atx_threads(case)
     if case["driver"] in ("daliserver", "atx"):
         return run_sync(case)
     obs = sc.run(case)
@@ -313,6 +315,102 @@ def async_case(draw, driver=None):
     return case
 
 
+# ------------------------------------------------- the synchronous ATX driver used from two threads ----
+def run_atx_threads(case):
+    """case: {"atx_threads": true, "a": value, "b": value, "hold": seconds}
+    Two threads call send() on one SyncDaliHatDriver.  The hat takes its time over the first exchange (the harness
+    holds the answer back for `hold` seconds of real time while the second thread is queued).  Nothing of the second
+    command may be written before the first exchange is over, and each thread gets its own answer.  The fake port
+    never times out by itself: the verdict does not depend on the machine's speed."""
+    import logging
+    import threading
+    import time
+    from props import c18
+    A = c18._env()["A"]            # dali.driver.atxled, imported with the usb/serial stubs in place
+    from dali.gear import general as g
+    lock = threading.Condition()
+    state = {"writes": [], "lines": []}
+
+    class Port:
+        def write(self, data):
+            with lock:
+                state["writes"].append((threading.current_thread().name, bytes(data)))
+                lock.notify_all()
+            return len(data)
+
+        def read_until(self, _sep=b"\n"):
+            with lock:
+                ok = lock.wait_for(lambda: state["lines"], timeout=20)
+                return state["lines"].pop(0) if ok else b""
+
+        def close(self):
+            pass
+
+    class FakeSerialModule:
+        PARITY_NONE, STOPBITS_ONE, EIGHTBITS = "N", 1, 8
+
+        @staticmethod
+        def Serial(**kw):
+            return Port()
+    saved = A.serial
+    A.serial = FakeSerialModule
+    out = []
+    try:
+        d = A.SyncDaliHatDriver(port="/dev/verif-atx-threads", LOG=logging.getLogger("verif.atx.threads"))
+        results = {}
+
+        def worker(name, cmd):
+            try:
+                results[name] = ("ok", d.send(cmd))
+            except Exception as e:  # noqa
+                results[name] = ("raised", e)
+        ta = threading.Thread(target=worker, name="A", args=("A", g.QueryActualLevel(1)), daemon=True)
+        tb = threading.Thread(target=worker, name="B", args=("B", g.QueryActualLevel(2)), daemon=True)
+
+        def wait_writes(n):
+            with lock:
+                return lock.wait_for(lambda: len(state["writes"]) >= n, timeout=20)
+
+        def push(line):
+            with lock:
+                state["lines"].append(line)
+                lock.notify_all()
+        ta.start()
+        if not wait_writes(1):
+            return [("C16:atx:threads:first-command-not-written", "thread A's command was not written within 20 s")]
+        tb.start()
+        time.sleep(case.get("hold", 0.8))            # thread B is queued behind A's exchange all this time
+        with lock:
+            early = [w for w in state["writes"] if w[0] == "B"]
+        if early:
+            out.append(("C16:atx:threads:command-written-into-a-running-exchange",
+                        "thread B's command %r was written while thread A's exchange was still waiting for the hat's answer "
+                        "(held back %.1f s)" % (early[0][1], case.get("hold", 0.8))))
+        push(("J%02X\n" % case["a"]).encode())
+        ta.join(20)
+        if not early and not wait_writes(2):
+            out.append(("C16:atx:threads:second-command-not-written", "thread B's command was never written"))
+        push(("J%02X\n" % case["b"]).encode())
+        tb.join(20)
+        for name, want in (("A", case["a"]), ("B", case["b"])):
+            r = results.get(name)
+            if r is None:
+                out.append(("C16:atx:threads:caller-hangs", "thread %s did not return" % name))
+            elif r[0] == "raised":
+                out.append(("C16:atx:threads:send-raised:%s" % type(r[1]).__name__, "thread %s: %r" % (name, r[1])))
+            else:
+                got = sc.describe_response(r[1])
+                if got.get("raw") != ["value", want]:
+                    out.append(("C16:atx:threads:answer-of-the-other-thread-or-lost", "thread %s asked its lamp and the hat answered "
+                                "%#x; send() returned %r" % (name, want, got)))
+        # release anything still blocked
+        for _ in range(12):
+            push(b"N\n")
+    finally:
+        A.serial = saved
+    return out
+
+
 # ------------------------------------------------- two driver objects in one program ----
 def run_twin(case):
     """case: {"twin": kind, "seq0": [a, b], "sides": {"A": [cmd specs], "B": [...]}, "t0": {"A": t, "B": t}, "lat": [[..], [..]]}
@@ -458,6 +556,15 @@ def nontrivial(case):
 def _shard(arg):
     kind, driver, seed, n = arg
     res = Result()
+    if kind == "atx-threads":
+        case = {"atx_threads": True, "a": 0x55 + seed % 7, "b": 0x66 + seed % 5, "hold": 0.8}
+        res.count()
+        res.nontrivial()
+        res.label("atx:two-threads")
+        for sig, msg in run_case(case):
+            res.violation(sig, case, msg)
+        res.sample(case, cls="atx two threads")
+        return res
     if kind == "twin":
         hyp.search(twin_case(), run_case, res, n, seed, ID, nontrivial=lambda c: True,
                    classify=lambda c: ["twin:" + c["twin"], "twin:same-sequence-numbers" if c["seq0"][0] == c["seq0"][1]
@@ -475,6 +582,7 @@ def run(ctx):
         drv = ASYNC[k % 4]
         shards.append(("async", drv, ctx.seed * 1000 + k, n // 4))
     shards.append(("sync", None, ctx.seed * 1000 + 99, n))
+    shards.append(("atx-threads", None, ctx.seed, 1))
     shards.append(("twin", None, ctx.seed * 1000 + 98, max(60, n // 6)))
     shards.append(("twin", None, ctx.seed * 1000 + 97, max(60, n // 6)))
     ctx.pmap(_shard, shards)
